@@ -94,7 +94,8 @@ func (re *Regexp) FindString(s string) string {
 	if m == nil {
 		return ""
 	}
-	return m.String()
+	loc := captureIndex(&m.Capture)
+	return s[loc[0]:loc[1]]
 }
 
 // FindStringIndex returns a two-element slice defining the location of the
@@ -149,7 +150,7 @@ func (re *Regexp) FindStringSubmatch(s string) []string {
 	if m == nil {
 		return nil
 	}
-	return matchStrings(m)
+	return matchStrings(m, s)
 }
 
 // FindStringSubmatchIndex returns a slice holding the byte index pairs of the
@@ -209,7 +210,8 @@ func (re *Regexp) FindAllString(s string, n int) []string {
 	}
 	var out []string
 	re.forEachStringMatch(s, n, func(m *regexp2.Match) {
-		out = append(out, m.String())
+		loc := captureIndex(&m.Capture)
+		out = append(out, s[loc[0]:loc[1]])
 	})
 	return out
 }
@@ -254,7 +256,7 @@ func (re *Regexp) FindAllStringSubmatch(s string, n int) [][]string {
 	}
 	var out [][]string
 	re.forEachStringMatch(s, n, func(m *regexp2.Match) {
-		out = append(out, matchStrings(m))
+		out = append(out, matchStrings(m, s))
 	})
 	return out
 }
@@ -304,12 +306,14 @@ func (re *Regexp) forEachStringMatch(s string, n int, f func(*regexp2.Match)) {
 	}
 }
 
-func matchStrings(m *regexp2.Match) []string {
+func matchStrings(m *regexp2.Match, s string) []string {
 	groups := m.Groups()
 	out := make([]string, len(groups))
 	for i := range groups {
 		if len(groups[i].Captures) > 0 {
-			out[i] = groups[i].String()
+			// slice the input so that invalid UTF-8 is returned as it was given
+			loc := captureIndex(&groups[i].Capture)
+			out[i] = s[loc[0]:loc[1]]
 		}
 	}
 	return out
